@@ -295,6 +295,26 @@ def hand():
     return out
 
 
+def loops():
+    """backward `next` jumps (second instances of tasks); not in any tier yet, see DESIGN.md"""
+    out = []
+    out.append(line("loop_needs", workflow("m", [
+        step("s1", branches=[
+            branch("b1", cond=A, steps=[step("s11", acts=[act("a1")])]),
+            branch("b2", needs=["b1"], steps=[step("s21")]),
+        ]),
+        step("s2", next="s1"),
+    ])))
+    out.append(line("loop_else", workflow("m", [
+        step("s1", branches=[
+            branch("b1", cond=A, steps=[step("s11", acts=[act("a1")])]),
+            branch("b2", els=True, steps=[step("s21", acts=[act("a2")])]),
+        ]),
+        step("s2", next="s1"),
+    ])))
+    return out
+
+
 def timed():
     """models with timeout rules (C19)"""
     out = []
@@ -305,6 +325,9 @@ def timed():
     ])))
     out.append(line("t_act_two_rules", workflow("m", [
         step("s1", acts=[act("a1", timeouts=[timeout(2, [tmsg(1)]), timeout(3, [tmsg(2)])])]),
+    ])))
+    out.append(line("t_act_two_rules_desc", workflow("m", [
+        step("s1", acts=[act("a1", timeouts=[timeout(3, [tmsg(1)]), timeout(2, [tmsg(2)])])]),
     ])))
     out.append(line("t_step_rule", workflow("m", [
         step("s1", acts=[act("a1"), act("a2")], timeouts=[timeout(2, [step("t1")])]),
@@ -328,6 +351,9 @@ def timed():
 
 def timedunits():
     out = []
+    out.append(line("t_same_limit_two_spellings", workflow("m", [
+        step("s1", acts=[act("a1", timeouts=[timeout(60, [step("t1")]), timeout(1, [step("t2")], unit="m")])]),
+    ])))
     for unit, n in (("m", 1), ("h", 1), ("d", 1), ("s", 90)):
         out.append(line(f"t_unit_{unit}", workflow("m", [
             step("s1", acts=[act("a1", timeouts=[timeout(n, [step("t1")], unit=unit)])]),
@@ -488,8 +514,9 @@ SEQ_NAMES = {"two_acts", "catch_act", "catch_step_two", "catch_two_irq", "catch_
 FAMILIES = {
     "hand": lambda a: hand(),
     "timed": lambda a: timed(),
+    "loops": lambda a: loops(),
     "timedunits": lambda a: timedunits(),
-    "timedsmall": lambda a: [ln for ln in timed() if ln["name"] not in ("t_branches", "t_two_acts")],
+    "timedsmall": lambda a: [ln for ln in timed() if ln["name"] not in ("t_branches", "t_two_acts", "t_act_two_rules")],
     # the hand-written models without parallel interrupt branches (cheap with a larger client budget)
     "handseq": lambda a: [ln for ln in hand() if ln["name"] in SEQ_NAMES],
     "core6": lambda a: family_core(6, {"max_steps": 2, "depth": 1, "max_acts": 2}, a.get("limit"), a.get("seed", 0)),
